@@ -53,19 +53,24 @@ def link_aware(base):
 # fixed program families of props2 (added after round 9 of the seeded changes): which property runs which, and the
 # monitor that judges each (a program of a family is judged by its own monitor only)
 FAMILY_MONITORS = (("held", P2.mon_held_writer), ("cd", P2.mon_cd_commit), ("grow", P2.mon_grow),
-                   ("bigrec", P2.mon_big_record), ("weaker", P2.mon_weaker_hash))
+                   ("bigrec", P2.mon_big_record), ("weaker", P2.mon_weaker_hash), ("emptydecl", P2.mon_empty_declaration),
+                   ("dangling", P2.mon_dangling_link_removal), ("linkedbucket", P2.mon_linked_bucket),
+                   ("gonecwd", P2.mon_gone_cwd_link))
 FAMILIES_FOR = {
     "C01": [P2.gen_weaker_hash_programs],
     "C02": [P2.gen_cd_commit_programs, P2.gen_grow_programs, P2.gen_held_writer_programs],
     "C04": [P2.gen_cd_commit_programs, P2.gen_held_writer_programs],
     "C05": [P2.gen_held_writer_programs, P2.gen_big_record_programs],
     "C07": [P2.gen_held_writer_programs],
-    "C08": [P2.gen_grow_programs],
+    "C08": [P2.gen_grow_programs, P2.gen_empty_declaration_programs],
+    "C09": [P2.gen_dangling_link_removal_programs],
+    "C10": [P2.gen_linked_bucket_programs],
     "C11": [P2.gen_big_record_programs, P2.gen_grow_programs],
     "C12": [P2.gen_held_writer_programs],
-    "C14": [P2.gen_held_writer_programs],
+    "C14": [P2.gen_held_writer_programs, P2.gen_empty_declaration_programs],
     "C15": [P2.gen_big_record_programs],
     "C16": [P2.gen_cd_commit_programs, P2.gen_grow_programs],
+    "C19": [P2.gen_gone_cwd_link_programs],
     "C20": [P2.gen_big_record_programs, P2.gen_grow_programs],
 }
 
@@ -111,7 +116,8 @@ reg("C01",
 reg("C18",
     gen=lambda seed, tier: (P.gen_damage_programs(G.Rng(seed + 18), N(tier, 60, 600), big=N(tier, 0.02, 0.05)) +
                             P.gen_extraction_programs(G.Rng(seed + 181), N(tier, 60, 600)) +
-                            P.gen_symlink_chain_programs() + P.gen_missing_content_programs()),
+                            P.gen_symlink_chain_programs() + P.gen_missing_content_programs() +
+                            P.gen_unsized_record_programs()),
     monitors=[lambda rr: (P.mon_symlink_chain(rr) if "chain" in rr.prog.tags else
                           P.mon_extraction(rr) if "steps" in rr.prog.tags else P.mon_checked_retrieval(rr))],
     nontrivial=lambda rr: has(rr, ("copy", "copy_hash", "hard_link", "hard_link_hash", "reflink"), ()),
@@ -288,11 +294,14 @@ reg("C06",
     gen=lambda seed, tier: (P.gen_bucket_programs(G.Rng(seed + 6), N(tier, 150, 3000)) + P.gen_bucket_shape_programs() +
                             P.gen_block_boundary_programs(G.Rng(seed + 61))),
     monitors=[P.mon_bucket],
+    extra=lambda seed, tier, flavours: LG.leg_fault_injection(LG.fault_cases_inserts(), flavours[0], tier),
     nontrivial=lambda rr: rr.prog.tags.get("damage", "undamaged") != "undamaged",
     rule="programs: a bucket file produced by the Python reference encoder (1-5 records, tombstones, foreign-key records, "
          "non-ASCII keys), damaged in one place (record cut at a random length, bit flip, garbage / NUL / invalid-UTF-8 "
          "line, separator destroyed, duplicated fragment, reordering, CR, overwrite) and stored with `put`; lookups in "
-         "both flavours and listing before and after one further append through the library, judged by the reference decoder")
+         "both flavours and listing before and after one further append through the library, judged by the reference decoder; "
+         "plus errno injection into every system call (fsync / fdatasync included, should there be any) of a keyed write and of "
+         "a rewrite: an insert that answers an error has not made its entry visible")
 
 reg("C17",
     gen=lambda seed, tier: (P.gen_layout_programs(G.Rng(seed + 17), N(tier, 80, 800)) +
